@@ -21,6 +21,9 @@
 (* a write that fails (the reader of a pipe has gone away) changes nothing    *)
 (* about the writes that follow - the replay makes one append fail with a     *)
 (* broken pipe, re-points the stream at a file and expects Writes there.      *)
+(* A record whose message logs through the same appender while it is being    *)
+(* rendered (the streams' locks are re-entrant) is Writes for both records:   *)
+(* the inner one lands inside the outer one, both in full.                    *)
 (***************************************************************************)
 EXTENDS Integers, Sequences, FiniteSets, TLC
 EnvVals == {"unset", "0", "1"}
